@@ -4,6 +4,8 @@ import FxVerif.Proofs.Ledger
 import FxVerif.Proofs.C08Index
 import FxVerif.Proofs.C08Books
 import FxVerif.Proofs.C08Run
+import FxVerif.Proofs.C08Ext
+import FxVerif.Proofs.C08Fam
 import FxVerif.Model.C08Cache
 import FxVerif.Proofs.C08Cache
 import FxVerif.Gen.C04
@@ -576,6 +578,54 @@ theorem module_books_preserved_all_messages (s : UState) (hi : IdxInv s.idx) (hd
     (bookM p.denom p.contract (decide (p.denom = 0))).val (runU s ops).L =
       (bookM p.denom p.contract (decide (p.denom = 0))).val s.L :=
   bookM_runU s hi hdead ops hf id p hp hext
+
+/-! ### I_external over every message (unified model, dynamic alias sets) -/
+
+open FxVerif.Proofs.C08 in
+/-- **I_external, exactly, for every message**: for a registered externally-owned pair `(d, ct)` whose bank metadata
+lists the aliases `as`, the ERC-20 amount escrowed by the module minus the coin supply summed over `d :: as` changes,
+under ANY message of the module in any state satisfying I_index, by exactly `extDelta`: 0 for every `MsgConvertCoin`,
+`MsgConvertERC20`, registration, toggle, alias update, parameter update and every `MsgConvertDenom` of another token's
+denominations; −n for `MsgConvertDenom` base → alias of this token (the known finding: the alias is minted while the
+base coin stays locked), +n for alias → base, 0 for alias → alias.  (`Nodup`: `Metadata.Validate` rejects duplicates.) -/
+theorem external_book_every_message (s s' : UState) (hi : IdxInv s.idx) (id : PairId) (p : Pair)
+    (hp : lookup id s.idx.pairs = some p) (hext : p.external = true) (as : List Nat)
+    (hmd : lookup p.denom s.idx.md = some as) (hn : (p.denom :: as).Nodup) (op : UOp) (h : stepU s op = .ok s') :
+    (bookE p.denom p.contract as).val s'.L = (bookE p.denom p.contract as).val s.L + extDelta s.idx p op :=
+  bookE_stepU s s' hi id p hp hext as hmd hn op h
+
+open FxVerif.Proofs.C08 in
+/-- corollary: every message other than `MsgConvertDenom` keeps I_external of every externally-owned pair -/
+theorem external_book_preserved_by_conversions (s s' : UState) (hi : IdxInv s.idx) (id : PairId) (p : Pair)
+    (hp : lookup id s.idx.pairs = some p) (hext : p.external = true) (as : List Nat)
+    (hmd : lookup p.denom s.idx.md = some as) (hn : (p.denom :: as).Nodup) (op : UOp)
+    (hop : ∀ d u r n t, op ≠ .convertDenom d u r n t) (h : stepU s op = .ok s') :
+    (bookE p.denom p.contract as).val s'.L = (bookE p.denom p.contract as).val s.L := by
+  rw [bookE_stepU s s' hi id p hp hext as hmd hn op h]
+  cases op with
+  | convertDenom d u r n t => exact absurd rfl (hop d u r n t)
+  | _ => simp [extDelta]
+
+open FxVerif.Proofs.C08 in
+/-- what `MsgUpdateDenomAlias` itself does to I_external: adding alias `a` to the metadata moves the right-hand side by
+exactly the current supply of `a` (0 for a denomination nobody holds) -/
+theorem external_book_alias_added (d ct : Nat) (as : List Nat) (a : Nat) (L : Ledger) :
+    (bookE d ct (as ++ [a])).val L = (bookE d ct as).val L - (L.supply (coinAsset a) : Int) := by
+  have := supplySum_val_append (d :: as) a L
+  simp only [List.cons_append] at this
+  simp only [bookE, Obs.add, Obs.neg, this]; omega
+
+open FxVerif.Proofs.C08 in
+/-- **the denominations of a module-owned coin stay backed** (I_family): for a registered module-owned pair whose bank
+metadata lists the aliases `as`, (supply of the base coin − alias coins escrowed by the erc20 module account) is kept
+by EVERY message in every state satisfying I_index — alias → base escrows the alias and mints the base, base → alias
+burns the base and releases the alias, alias → alias moves escrow only; the native coin's `convertNativeAlias` branch
+included; conversions of other tokens and all index operations do not touch it -/
+theorem family_book_every_message (s s' : UState) (hi : IdxInv s.idx) (id : PairId) (p : Pair)
+    (hp : lookup id s.idx.pairs = some p) (hext : p.external = false) (as : List Nat)
+    (hmd : lookup p.denom s.idx.md = some as) (hn : (p.denom :: as).Nodup) (op : UOp) (h : stepU s op = .ok s') :
+    (bookF p.denom as).val s'.L = (bookF p.denom as).val s.L :=
+  bookF_stepU s s' hi id p hp hext as hmd hn op h
 
 /-! ### convert_exact and I_sum for the unified model -/
 
